@@ -8,6 +8,7 @@ import (
 	"go/constant"
 	"go/token"
 	"go/types"
+	"strings"
 
 	"golang.org/x/tools/go/packages"
 )
@@ -235,6 +236,9 @@ func encodedLenVar(info *types.Info, bodies []ast.Node, name string) string {
 				if id, ok := call.Fun.(*ast.Ident); ok && id.Name == "len" {
 					found = true
 				}
+				if runeLenHelper != nil && runeLenHelper(call) {
+					found = true
+				}
 			}
 			return true
 		})
@@ -440,6 +444,12 @@ func changesHandedOnWhole(c *Ctx, rule string) {
 		}
 		return true
 	})
+	scope := fd
+	if apply == nil {
+		if _, h, inner := applyThroughHelper(p, fd); inner != nil && len(inner.Args) == 2 {
+			apply, scope = inner, h
+		}
+	}
 	if apply == nil {
 		c.viol(rule, "anchor-lost:"+funcKey(p, fd)+"|apply", "", "DidChange no longer hands the changes to the document store's Apply")
 		return
@@ -461,7 +471,7 @@ func changesHandedOnWhole(c *Ctx, rule string) {
 			}
 			seen[ob] = true
 			n := 0
-			ast.Inspect(fd.Body, func(m ast.Node) bool {
+			ast.Inspect(scope.Body, func(m ast.Node) bool {
 				if as, ok := m.(*ast.AssignStmt); ok && len(as.Lhs) == len(as.Rhs) {
 					for i, l := range as.Lhs {
 						if lid, ok := ast.Unparen(l).(*ast.Ident); ok && info.ObjectOf(lid) == ob {
@@ -885,4 +895,150 @@ func orZero(s string) string {
 		return "0"
 	}
 	return s
+}
+
+// applyThroughHelper: DidChange hands the changes to the document store inside a helper of the package —
+// `d, err := p.applyContentChanges(params)` — whose body makes the one TemplSource.Apply call and whose every return
+// hands back the document that call returned. Returns the call in fd that stands for the update, the helper and the
+// Apply call inside it.
+func applyThroughHelper(p *packages.Package, fd *ast.FuncDecl) (outer *ast.CallExpr, helper *ast.FuncDecl, inner *ast.CallExpr) {
+	info := p.TypesInfo
+	directNodes(fd.Body, func(n ast.Node) bool {
+		call, ok := n.(*ast.CallExpr)
+		if !ok || outer != nil {
+			return true
+		}
+		fn := calleeOf(info, call)
+		if fn == nil || fn.Pkg() != p.Types {
+			return true
+		}
+		for _, hfd := range allFuncDecls(p) {
+			if info.Defs[hfd.Name] != types.Object(fn) || hfd.Body == nil || hfd == fd {
+				continue
+			}
+			var applies []*ast.CallExpr
+			ast.Inspect(hfd.Body, func(m ast.Node) bool {
+				if c2, ok := m.(*ast.CallExpr); ok && strings.HasSuffix(types.ExprString(c2.Fun), "TemplSource.Apply") {
+					applies = append(applies, c2)
+				}
+				return true
+			})
+			if len(applies) != 1 {
+				continue
+			}
+			// the document every return hands back is the one Apply returned
+			var dObj types.Object
+			ast.Inspect(hfd.Body, func(m ast.Node) bool {
+				if as, ok := m.(*ast.AssignStmt); ok && len(as.Rhs) == 1 && as.Rhs[0] == ast.Expr(applies[0]) {
+					if id, ok := as.Lhs[0].(*ast.Ident); ok {
+						dObj = info.ObjectOf(id)
+					}
+				}
+				return true
+			})
+			okRet, nret := true, 0
+			ast.Inspect(hfd.Body, func(m ast.Node) bool {
+				if _, isLit := m.(*ast.FuncLit); isLit {
+					return false
+				}
+				ret, ok := m.(*ast.ReturnStmt)
+				if !ok {
+					return true
+				}
+				nret++
+				r := explicitReturn(info, ret)
+				if len(r.Results) == 0 {
+					okRet = false
+					return true
+				}
+				first := ast.Unparen(r.Results[0])
+				if first == ast.Expr(applies[0]) {
+					return true
+				}
+				if id, ok := first.(*ast.Ident); !ok || dObj == nil || info.ObjectOf(id) != dObj {
+					okRet = false
+				}
+				return true
+			})
+			if okRet && nret > 0 {
+				outer, helper, inner = call, hfd, applies[0]
+			}
+		}
+		return true
+	})
+	return
+}
+
+// callsEncodedLenHelper: the call goes to a function of package p with one rune parameter and an integer result whose
+// body takes utf8.RuneLen / EncodeRune / AppendRune of it, and whose every return is a value built on that call or
+// the constant 1 (the width of an invalid rune).
+func callsEncodedLenHelper(p *packages.Package, call *ast.CallExpr) bool {
+	if p == nil {
+		return false
+	}
+	info := p.TypesInfo
+	fn := calleeOf(info, call)
+	if fn == nil || fn.Pkg() != p.Types {
+		return false
+	}
+	for _, fd := range allFuncDecls(p) {
+		if info.Defs[fd.Name] != types.Object(fn) || fd.Body == nil {
+			continue
+		}
+		takes := false
+		lenVars := map[types.Object]bool{}
+		isLenCall := func(e ast.Expr) bool {
+			c2, ok := ast.Unparen(e).(*ast.CallExpr)
+			if !ok {
+				return false
+			}
+			f2 := calleeOf(info, c2)
+			return f2 != nil && f2.Pkg() != nil && f2.Pkg().Path() == "unicode/utf8" && (f2.Name() == "RuneLen" || f2.Name() == "EncodeRune")
+		}
+		ast.Inspect(fd.Body, func(n ast.Node) bool {
+			if as, ok := n.(*ast.AssignStmt); ok && len(as.Lhs) == 1 && len(as.Rhs) == 1 && isLenCall(as.Rhs[0]) {
+				if id, ok := as.Lhs[0].(*ast.Ident); ok {
+					lenVars[info.ObjectOf(id)] = true
+					takes = true
+				}
+			}
+			return true
+		})
+		okRet, nret := true, 0
+		ast.Inspect(fd.Body, func(n ast.Node) bool {
+			ret, ok := n.(*ast.ReturnStmt)
+			if !ok {
+				return true
+			}
+			nret++
+			if len(ret.Results) != 1 {
+				okRet = false
+				return true
+			}
+			r := ast.Unparen(ret.Results[0])
+			if isLenCall(r) {
+				takes = true
+				return true
+			}
+			if id, ok := r.(*ast.Ident); ok && lenVars[info.ObjectOf(id)] {
+				return true
+			}
+			if tv, ok := info.Types[r]; ok && tv.Value != nil {
+				if v, ok := constant.Int64Val(constant.ToInt(tv.Value)); ok && v == 1 {
+					return true
+				}
+			}
+			// max(utf8.RuneLen(r), 1)
+			if c2, ok := r.(*ast.CallExpr); ok {
+				if id, ok := c2.Fun.(*ast.Ident); ok && id.Name == "max" && len(c2.Args) == 2 && (isLenCall(c2.Args[0]) || isLenCall(c2.Args[1])) {
+					takes = true
+					return true
+				}
+			}
+			okRet = false
+			return true
+		})
+		return takes && okRet && nret > 0
+	}
+	return false
 }
